@@ -267,10 +267,13 @@ func (p *Path) Resolve(v ssa.Value, at int) ssa.Value {
 		v = strip(v)
 		if p.frames != nil && at >= 0 {
 			if par, ok := v.(*ssa.Parameter); ok && par.Parent() != p.Fn {
-				// the innermost enclosing frame of segment 'at' that runs par's function
-				f := p.segFrame[at]
-				for f > 0 && p.frames[f].fn != par.Parent() {
-					f = p.frames[f].parent
+				// the latest invocation of par's function that started at or before 'at'
+				f := -1
+				for k := len(p.frames) - 1; k > 0; k-- {
+					if p.frames[k].fn == par.Parent() && p.frames[k].callSeg <= at {
+						f = k
+						break
+					}
 				}
 				if f > 0 {
 					idx := -1
